@@ -307,3 +307,16 @@ func Polling() string {
 	}
 	return fmt.Sprint(ready)
 }
+
+// Terminating: a select whose clauses all return is a terminating statement.
+func Terminating() (string, error) {
+	ok := make(chan string, 1)
+	bad := make(chan error, 1)
+	go func() { ok <- "fine" }()
+	select {
+	case s := <-ok:
+		return s, nil
+	case err := <-bad:
+		return "", err
+	}
+}
